@@ -26,7 +26,8 @@
    granularities are model checked; the Eager graph is dumped and walked for the replay.
 
    A unit is [f, n, ok, k]: the n-th unit written to format f by a publisher that was current (ok); k is its
-   kind: "frame" (decoded payload present) or "frag" (an RTP packet of a frame that is still incomplete: the
+   kind: "frame" (decoded payload present), "key" / "aud" (payloads from which the remuxer strips in-band parameter
+   sets / a delimiter and into which it injects the current sets), or "frag" (an RTP packet of a frame that is still incomplete: the
    publisher uses RTP packets and the frame spans several of them, so the unit has no payload).  Both kinds are
    units in the sense of the statement: each goes through every subscribed reader's queue and is delivered or counted.
    Units of publishers that are not current are never queued, so they need no identity.
@@ -50,6 +51,9 @@ CONSTANTS Formats,      \* e.g. {"f1","f2"}
           Kinds,        \* kinds of units a publisher writes: "frame" (carries a decoded payload) and/or "frag" (an RTP
                         \* packet of a frame that is not complete yet: UseRTPPackets publisher, no payload)
           FragFormats,  \* formats on which "frag" units occur (video formats whose frames span several packets)
+          DevSharedScratch,
+                        \* named deviation, FALSE = the code.  TRUE: the remuxer keeps ONE buffer per format for the
+                        \* payload it hands out, so every unit of a format shows the content of the unit written last
           DevCountFramesOnly
                         \* named deviation, FALSE = the code.  TRUE: a unit skipped on a full queue is counted only
                         \* if it carries a payload (kind "frame"); fragments are then dropped silently
@@ -73,7 +77,7 @@ Init0(q) ==
           nst   |-> 0,                          \* units written by publishers that were not current
           last  |-> [r \in Readers |-> [f \in Formats |-> 0]],
           owed  |-> [r \in Readers |-> 0],
-          ev    |-> [drop |-> {}]]
+          ev    |-> [drop |-> {}, mod |-> {}]]   \* last step: whose counter moved; who was given altered content
 
 \* ------------------------------------------------------------------ layer 1 (pure operators)
 CanPull(s, r) == /\ s.phase[r] \in {"sub", "unsub", "closed"}
@@ -81,7 +85,8 @@ CanPull(s, r) == /\ s.phase[r] \in {"sub", "unsub", "closed"}
 
 \* the readers in P pull: the callback starts (a delivery)
 PullSet(s, P) ==
-    [s EXCEPT !.held  = [r \in Readers |-> IF r \in P THEN Head(s.queue[r]) ELSE @[r]],
+    [s EXCEPT !.ev.mod = {r \in P : DevSharedScratch /\ Head(s.queue[r]).n # s.nwr[Head(s.queue[r]).f]},
+              !.held  = [r \in Readers |-> IF r \in P THEN Head(s.queue[r]) ELSE @[r]],
               !.last  = [r \in Readers |-> IF r \in P
                                            THEN [@[r] EXCEPT ![Head(s.queue[r]).f] = Head(s.queue[r]).n]
                                            ELSE @[r]],
@@ -89,7 +94,7 @@ PullSet(s, P) ==
               !.queue = [r \in Readers |-> IF r \in P THEN Tail(@[r]) ELSE @[r]]]
 
 Settle(s) == IF Eager THEN PullSet(s, {r \in Readers : CanPull(s, r)}) ELSE s
-Quiet(s)  == [s EXCEPT !.ev = [drop |-> {}]]
+Quiet(s)  == [s EXCEPT !.ev = [drop |-> {}, mod |-> {}]]
 
 WriteF(s, ss, f, k) ==
     IF ss # s.cur
@@ -104,7 +109,7 @@ WriteF(s, ss, f, k) ==
                !.queue = [r \in Readers |-> IF r \in to \ full THEN Append(@[r], u) ELSE @[r]],
                \* owed = handed to the reader and not (yet) delivered, counted or thrown away by Close
                !.owed  = [r \in Readers |-> IF r \in to \ counted THEN @[r] + 1 ELSE @[r]],
-               !.ev    = [drop |-> counted]])      \* outboundFramesDiscarded.Increase()
+               !.ev    = [drop |-> counted, mod |-> {}]])      \* outboundFramesDiscarded.Increase()
 
 PullF(s, r)  == PullSet(Quiet(s), {r})
 DoneF(s, r)  == Settle([Quiet(s) EXCEPT !.held[r] = NoUnit])
@@ -191,6 +196,9 @@ OnlyWrittenSubscribed(nwritten, d, S) ==
     \A k \in 1..Len(d) : /\ d[k].f \in S
                          /\ d[k].ok
                          /\ d[k].n \in 1..nwritten[d[k].f]
+\* "unmodified after remuxing": what a callback is given for unit i is the remuxed content unit i had when it was
+\* written, however many units were written since.  c = sequence of [got, written] content pairs
+Unmodified(c) == \A k \in 1..Len(c) : c[k].got = c[k].written
 \* "in write order, each at most once" (per format)
 InOrderOnce(d) ==
     \A i, j \in 1..Len(d) : (i < j /\ d[i].f = d[j].f) => d[i].n < d[j].n
@@ -227,6 +235,7 @@ StepOnlyOrder ==
 StepSkipOnlyWhenFull ==
     [][\A r \in Readers :
          SkipOnlyWhenFull(st.owed[r], 0, IF Dropped(st', r) THEN 1 ELSE 0, st.q)]_vars
+StepUnmodified == [][st'.ev.mod = {}]_vars     \* the model's contents are the unit numbers: altered = another unit's
 StepNoCallbackAfterEnd ==
     [][\A r \in Readers : st.phase[r] = "stopped" => (~Began(st, st', r) /\ st'.phase[r] = "stopped")]_vars
 
